@@ -446,6 +446,7 @@ func c10r3(c *core.Ctx) {
 
 func c10r4(c *core.Ctx) {
 	p := c.P
+	sessionAccessors(c, "subscribed")
 	for _, spec := range []struct {
 		name  string
 		write bool
